@@ -170,6 +170,12 @@ def main():
     declared = set()
     for h in [os.path.join(repo, "include", "libast.h")] + [os.path.join(repo, "include", "libast", x) for x in os.listdir(os.path.join(repo, "include", "libast")) if x.endswith(".h")]:
         declared |= set(re.findall(r'^extern\s+[^;(]*?\b(\w+)\s*\(', strip_comments(open(h).read()), re.M))
+    # ... and only what the pinned build really exports (some strings.c functions are compiled conditionally)
+    lib = os.path.join(repo, "src", ".libs", "libast.a")
+    if os.path.exists(lib):
+        out = subprocess.run(["nm", "--defined-only", lib], capture_output=True, text=True).stdout
+        built = set(re.findall(r"^[0-9a-f]+ T (\w+)$", out, re.M))
+        declared &= built
     for name in FILES:
         funcs, txt = parse_functions(repo, name)
         byname = {f["name"]: f for f in funcs}
